@@ -6,6 +6,7 @@ package decoder
 import (
 	"context"
 	"fmt"
+	"sort"
 
 	"github.com/hashicorp/hcl-lang/decoder/internal/schemahelper"
 	"github.com/hashicorp/hcl-lang/lang"
@@ -54,7 +55,18 @@ func (d *PathDecoder) completionAtPos(ctx context.Context, body *hclsyntax.Body,
 
 	filename := body.Range().Filename
 
+	// visit the attributes in source order: the recovered expression of an incomplete attribute can
+	// reach the name of the next one, and which of the two claims the position must not depend on
+	// the iteration order of the map
+	attrs := make([]*hclsyntax.Attribute, 0, len(body.Attributes))
 	for _, attr := range body.Attributes {
+		attrs = append(attrs, attr)
+	}
+	sort.Slice(attrs, func(i, j int) bool {
+		return attrs[i].SrcRange.Start.Byte < attrs[j].SrcRange.Start.Byte
+	})
+
+	for _, attr := range attrs {
 		if d.isPosInsideAttrExpr(attr, pos) {
 			if bodySchema.Extensions != nil && bodySchema.Extensions.SelfRefs {
 				ctx = schema.WithActiveSelfRefs(ctx)
